@@ -102,21 +102,24 @@ Lemma block_of_outs padto es : forall xs outs,
   exists present, concat outs = flat_map enc_ext present
     /\ subseq (map fst present) (map ext_id es)
     /\ Forall present_ok present
-    /\ forallb (fun x => body_okb (fst x) (snd x)) present = true.
+    /\ forallb (fun x => body_okb (fst x) (snd x)) present = true
+    /\ (forall e, In e es -> is_padding e = false -> ext_absent e = false -> In (ext_id e, ext_body e) present).
 Proof.
   induction es as [|e es IH]; intros xs outs Hwf Hrel Hem Hlen.
-  - inversion Hrel; subst. inversion Hem; subst. exists []. repeat split; constructor.
+  - inversion Hrel; subst. inversion Hem; subst. exists []. repeat split; try constructor. intros e [].
   - inversion Hrel as [|? x ? xs' Hr Hrel']; subst. inversion Hem as [|? o ? outs' Ho Hem']; subst.
     inversion Hwf as [|? ? [Hw Hrfc] Hwf']; subst.
     cbn [concat] in Hlen. rewrite len_app in Hlen.
-    destruct (IH xs' outs' Hwf' Hrel' Hem') as (present & Hcat & Hsub & Hok & Hbody); [lia|].
-    assert (Hcase : o = [] \/ exists b, o = enc_ext (ext_id e, b) /\ present_ok (ext_id e, b) /\ body_okb (ext_id e) b = true).
+    destruct (IH xs' outs' Hwf' Hrel' Hem') as (present & Hcat & Hsub & Hok & Hbody & Hin); [lia|].
+    assert (Hcase : (o = [] /\ (is_padding e = false -> ext_absent e = true))
+                    \/ exists b, o = enc_ext (ext_id e, b) /\ present_ok (ext_id e, b) /\ body_okb (ext_id e) b = true
+                                 /\ (is_padding e = false -> b = ext_body e)).
     { unfold rel in Hr. destruct (is_padding e) eqn:Hp.
       - destruct Hr as (pol & st & ->). cbn [emits] in Ho. subst o.
         destruct e; try discriminate. cbn [ext_id].
         assert (Hpl : pad_len st < 65536) by (rewrite <- len_pad_emit; lia).
-        rewrite (pad_emit_wire st Hpl). destruct (p_will st) eqn:Hw'; [right | left; reflexivity].
-        exists (zbytes (N.to_nat (p_len st))). split; [reflexivity|]. split.
+        rewrite (pad_emit_wire st Hpl). destruct (p_will st) eqn:Hw'; [right | left; split; [reflexivity | discriminate]].
+        exists (zbytes (N.to_nat (p_len st))). split; [reflexivity|]. split; [|split; [|discriminate]].
         + unfold present_ok, pad_len in *. cbn [fst snd]. rewrite Hw' in Hpl. rewrite blen_zbytes, N2Nat.id.
           unfold ID_PADDING. lia.
         + rewrite bo_padding. apply all_zero_zbytes.
@@ -126,15 +129,18 @@ Proof.
         { specialize (Hrd (zeros (ext_len e))). specialize (Hrd2 (zeros (ext_len e))).
           rewrite len_zeros in Hrd, Hrd2. specialize (Hrd (N.le_refl _)). specialize (Hrd2 (N.le_refl _)).
           rewrite Hrd in Hrd2. inversion Hrd2. reflexivity. }
-        subst o. unfold wire_of. destruct (ext_absent e) eqn:Habs; [left; reflexivity | right].
-        exists (ext_body e). split; [reflexivity|]. destruct (wf_parts e Hw) as (_ & Hf & Hl). split.
+        subst o. unfold wire_of. destruct (ext_absent e) eqn:Habs; [left; split; reflexivity | right].
+        exists (ext_body e). split; [reflexivity|]. destruct (wf_parts e Hw) as (_ & Hf & Hl). split; [|split; [|reflexivity]].
         + unfold present_ok. cbn [fst snd]. split; [apply ext_id_u16; exact Hf|].
           pose proof (body_len e Hw Habs). lia.
         + apply body_ok_ext; assumption. }
-    destruct Hcase as [->|(b & -> & Hpo & Hbo)].
-    + exists present. cbn [concat app map]. split; [exact Hcat|]. split; [constructor; exact Hsub|]. split; assumption.
+    destruct Hcase as [[-> Habs']|(b & -> & Hpo & Hbo & Hb)].
+    + exists present. cbn [concat app map]. split; [exact Hcat|]. split; [constructor; exact Hsub|].
+      split; [assumption|]. split; [assumption|].
+      intros e' [<-|He'] Hp' Ha'; [rewrite (Habs' Hp') in Ha'; discriminate | apply Hin; assumption].
     + exists ((ext_id e, b) :: present). cbn [concat flat_map map forallb fst snd]. rewrite Hcat, Hbo, Hbody.
-      split; [reflexivity|]. split; [constructor; exact Hsub|]. split; [constructor; assumption | reflexivity].
+      split; [reflexivity|]. split; [constructor; exact Hsub|]. split; [constructor; assumption|]. split; [reflexivity|].
+      intros e' [<-|He'] Hp' Ha'; [left; rewrite (Hb Hp'); reflexivity | right; apply Hin; assumption].
 Qed.
 
 (* ---- Marshal.v's byte forms are the combinator layout ---- *)
@@ -188,7 +194,8 @@ Lemma marshal_hello_ok bbs padto h es p : wf_specb h es = true ->
                           c_comp := h_comp h; c_has_exts := nonempty es; c_exts := present |})
     /\ subseq (map fst present) (map ext_id es)
     /\ ast_ok {| c_vers := h_vers h; c_random := h_random h; c_sid := h_sid h; c_suites := h_suites h;
-                 c_comp := h_comp h; c_has_exts := nonempty es; c_exts := present |}.
+                 c_comp := h_comp h; c_has_exts := nonempty es; c_exts := present |}
+    /\ (forall e, In e es -> is_padding e = false -> ext_absent e = false -> In (ext_id e, ext_body e) present).
 Proof.
   intros Hwf Hp Hfit.
   destruct (wf_spec_parts h es Hwf) as (Hv & Hr & Hsid & Hsne & Hsu & Hcne & Hall & Hnd & Hpsk).
@@ -201,14 +208,14 @@ Proof.
   destruct (prepare_ok h aes p Hok Hp) as (Htot & _ & Hnil & _).
   pose proof (emits_total _ _ Hem) as Hcat. rewrite Htot in Hcat.
   assert (Heblen : len eb < 65536) by (rewrite Heb, Hcat; lia).
-  destruct (block_of_outs padto es (pr_exts p) outs Hall (prepare_rel padto h es p Hp) Hem) as (present & Hpres & Hsub & Hpok & Hbok).
+  destruct (block_of_outs padto es (pr_exts p) outs Hall (prepare_rel padto h es p Hp) Hem) as (present & Hpres & Hsub & Hpok & Hbok & Hin).
   { rewrite <- Heb. exact Heblen. }
   exists present.
   assert (Hs2 : 2 * blen (h_suites h) < 65536) by (rewrite <- len_is_blen; lia).
   assert (Hhas : match aes with [] => [] | _ :: _ => u16be (u16 (len eb)) ++ eb end
                  = if nonempty es then u16be (u16 (len eb)) ++ eb else []).
   { unfold aes. destruct es; reflexivity. }
-  split; [|split; [exact Hsub|]].
+  split; [|split; [exact Hsub|split; [|exact Hin]]].
   - unfold marshal_hello. fold aes. rewrite Hp. cbn [bind]. unfold fits. rewrite F1, F2, F3, F4. cbn [andb negb].
     rewrite Hm. f_equal. rewrite Hhas in Hbody. rewrite Hbody.
     apply (layout_eq h (nonempty es) present eb); [rewrite Heb; exact Hpres | exact Heblen | exact Hs2].
@@ -237,7 +244,7 @@ Lemma valid_or_error bbs padto h es : wf_specb h es = true ->
 Proof.
   intros Hwf. destruct (marshal_prepare h (map (to_aext padto) es)) as [p|c|c] eqn:Hp.
   - destruct (fits h p) eqn:Hfit.
-    + destruct (marshal_hello_ok bbs padto h es p Hwf Hp Hfit) as (present & Hm & Hsub & Hok). rewrite Hm.
+    + destruct (marshal_hello_ok bbs padto h es p Hwf Hp Hfit) as (present & Hm & Hsub & Hok & _). rewrite Hm.
       destruct (wf_spec_parts h es Hwf) as (_ & _ & _ & _ & _ & _ & _ & Hnd & Hpsk).
       eapply valid_of_layout; [exact Hok | exact Hsub | exact Hnd | exact Hpsk].
     + unfold marshal_hello. rewrite Hp. cbn [bind]. rewrite Hfit. exact I.
@@ -268,7 +275,7 @@ Proof.
   intros Hwf Hfit. unfold spec_fitsb in Hfit.
   destruct (marshal_prepare h (map (to_aext padto) es)) as [p|c|c] eqn:Hp; try discriminate.
   pose proof (valid_or_error bbs padto h es Hwf) as H.
-  destruct (marshal_hello_ok bbs padto h es p Hwf Hp Hfit) as (present & Hm & _ & _).
+  destruct (marshal_hello_ok bbs padto h es p Hwf Hp Hfit) as (present & Hm & _ & _ & _).
   rewrite Hm in H. eexists; split; [exact Hm | exact H].
 Qed.
 
